@@ -1,7 +1,7 @@
 /* C08 (+ the bundle half of C02): one obligation per element-kind sequence (BN_K, BN_KINDS fixed by the
  * generator); element payload bytes, the 64-bit time tag, the capacity and the previous buffer content are
  * symbolic. Element kinds: KA "/a" ",i" <int>; KB "/ab" ",s" <fixed 3-char string>; KC "/" ","; KD bundle{KA};
- * KE bundle{KD,KC} (nesting depth 2); KF "/f" ",b" blob of 5 symbolic bytes. */
+ * KE bundle{KD,KC} (nesting depth 2); KF "/f" ",b" blob of 5 symbolic bytes; KG "/g" ",b" blob of 120 zero bytes (element size 132 = 0x84; needs -DELMAX=136). */
 #include "verif.h"
 #include <rtosc/rtosc.h>
 #include "osc_spec.h"
@@ -18,8 +18,10 @@
 #define A02(c,m) V_ASSERT(c,m)
 #endif
 
-enum { KA, KB, KC, KD, KE, KF };
+enum { KA, KB, KC, KD, KE, KF, KG };
+#ifndef ELMAX
 #define ELMAX 64
+#endif
 static const int kinds[4] = { BN_KINDS };
 #define BN_KMAX 3
 
@@ -40,6 +42,7 @@ static size_t build(int kind, uint8_t *out, int j)
     case KA: v[0].bits = IN.pay[j]; return spec_encode(out, ELMAX, "/a", "i", v);
     case KB: v[0].s = "x\x81z"; return spec_encode(out, ELMAX, "/ab", "s", v);   /* fixed string: symbolic string bytes make every offset symbolic */
     case KC: return spec_encode(out, ELMAX, "/", "", v);
+    case KG: v[0].len = 120; v[0].data = 0; return spec_encode(out, ELMAX, "/g", "b", v);   /* 132 bytes: a size byte >= 0x80 */
     case KF: v[0].len = 5; v[0].data = IN.bytes[j]; return spec_encode(out, ELMAX, "/f", "b", v);
     case KD: { uint8_t in0[ELMAX]; size_t s0 = build(KA, in0, j);
                const uint8_t *el[1] = { in0 }; uint32_t sz[1] = { (uint32_t)s0 };
